@@ -40,6 +40,30 @@ type Env struct {
 	Name    string
 	Parent  *Env
 	FI      *FuncInfo
+	inGotoLoop map[string]bool
+	fixed      map[*ast.CallExpr]*fixedCall
+}
+
+// litOfTop: this activation is a function literal written inside the function under verification.
+func (e *Env) litOfTop() bool {
+	for x := e; x != nil; x = x.Parent {
+		if x.Top {
+			return true
+		}
+		if x.FI != nil {
+			return false
+		}
+	}
+	return false
+}
+
+// fixedCall: receiver captured when a defer statement was executed.
+type fixedCall struct {
+	recv      Value
+	hasRecv   bool
+	lockRef   *Term
+	lockOwner types.Type
+	lockField string
 }
 
 func (c *FCtx) newEnv(pkg *packages.Package, sig *types.Signature, body *ast.BlockStmt, top bool, name string) *Env {
@@ -202,6 +226,8 @@ func splitGoal(g *Term) []*Term {
 
 func (c *FCtx) safety(st *State, kind string, pos token.Pos, goal *Term, text string) {
 	if !c.Safety {
+		// run-time panics are assumed absent in this mode (listed in the evidence)
+		st.assume(goal)
 		return
 	}
 	n := c.siteOrdinal(kind, pos)
@@ -211,15 +237,56 @@ func (c *FCtx) safety(st *State, kind string, pos token.Pos, goal *Term, text st
 
 // ---- statements ----
 
+// labelIndex finds a (non-loop) labeled statement in a statement list.
+func labelIndex(list []ast.Stmt, label string) int {
+	for i, s := range list {
+		if ls, ok := s.(*ast.LabeledStmt); ok && ls.Label.Name == label {
+			return i
+		}
+	}
+	return -1
+}
+
+// gotoTargets: labels that are the target of a goto somewhere in the list.
+func gotoTargets(list []ast.Stmt) map[string]bool {
+	m := map[string]bool{}
+	for _, s := range list {
+		ast.Inspect(s, func(n ast.Node) bool {
+			if b, ok := n.(*ast.BranchStmt); ok && b.Tok == token.GOTO && b.Label != nil {
+				m[b.Label.Name] = true
+			}
+			if _, ok := n.(*ast.FuncLit); ok {
+				return false
+			}
+			return true
+		})
+	}
+	return m
+}
+
 func (e *Env) execBlock(list []ast.Stmt, st *State) []Outcome {
 	cur := []*State{st}
 	var outs []Outcome
-	for _, s := range list {
+	for idx, s := range list {
+		// a label that is jumped to from later in the block is a loop head (cut point)
+		if ls, ok := s.(*ast.LabeledStmt); ok {
+			if gotoTargets(list[idx:])[ls.Label.Name] && !e.inGotoLoop[ls.Label.Name] {
+				var res []Outcome
+				for _, cs := range cur {
+					res = append(res, e.execGotoLoop(list[idx:], ls.Label.Name, cs)...)
+				}
+				return append(outs, res...)
+			}
+		}
 		var next []*State
 		for _, cs := range cur {
 			for _, o := range e.execStmt(s, cs) {
 				if o.Kind == oNormal {
 					next = append(next, o.St)
+				} else if o.Kind == oGoto && labelIndex(list, o.Label) > idx {
+					// forward jump inside this block: resume at the label
+					k := labelIndex(list, o.Label)
+					outs = append(outs, e.execBlock(list[k:], o.St)...)
 				} else {
 					outs = append(outs, o)
 				}
@@ -354,7 +421,7 @@ func (e *Env) execStmt(s ast.Stmt, st *State) []Outcome {
 		case token.CONTINUE:
 			return []Outcome{{Kind: oContinue, Label: lbl, St: st}}
 		case token.GOTO:
-			panic(outOfReach("goto"))
+			return []Outcome{{Kind: oGoto, Label: lbl, St: st}}
 		case token.FALLTHROUGH:
 			panic(outOfReach("fallthrough"))
 		}
@@ -370,7 +437,8 @@ func (e *Env) execStmt(s ast.Stmt, st *State) []Outcome {
 		return []Outcome{{Kind: oNormal, St: st}}
 	case *ast.SendStmt:
 		ch := x.Chan
-		e.eval(x.Value, st)
+		sv := e.eval(x.Value, st)
+		c.protoSendValue(e, st, ch, sv)
 		c.protoChanOp(e, st, ch, true, x.Pos())
 		if st.dead {
 			return nil
@@ -969,15 +1037,29 @@ func (e *Env) execDefer(x *ast.DeferStmt, st *State) {
 	for _, a := range call.Args {
 		argVals = append(argVals, e.eval(a, st))
 	}
-	var recv Value
-	if sel, ok := call.Fun.(*ast.SelectorExpr); ok {
-		if s := e.Info.Selections[sel]; s != nil {
-			recv = e.eval(sel.X, st)
+	// the receiver (and a lock designated by it) is fixed when the defer statement executes
+	fc := &fixedCall{}
+	if sel, ok := stripParens(call.Fun).(*ast.SelectorExpr); ok {
+		if s := e.Info.Selections[sel]; s != nil && s.Kind() == types.MethodVal {
+			if fn, ok := s.Obj().(*types.Func); ok && strings.HasPrefix(fn.FullName(), "(*sync.") {
+				fc.hasRecv = true
+				fc.recv = IntC(0)
+				if ref, owner, fld, ok := e.lockFieldOf(sel.X, st); ok {
+					fc.lockRef, fc.lockOwner, fc.lockField = ref, owner, fld
+				}
+			} else {
+				fc.recv = e.eval(sel.X, st)
+				fc.hasRecv = true
+			}
 		}
 	}
-	_ = recv
 	d := deferred{run: func(s2 *State) {
+		if e.fixed == nil {
+			e.fixed = map[*ast.CallExpr]*fixedCall{}
+		}
+		e.fixed[call] = fc
 		e.evalCallWith(call, s2, argVals)
+		delete(e.fixed, call)
 	}}
 	if len(st.defers) == 0 {
 		st.defers = append(st.defers, nil)
@@ -998,6 +1080,63 @@ func (e *Env) runDefers(st *State) {
 	}
 }
 
+// execGotoLoop treats "L: stmts ... goto L" as a loop whose head is the label (a cut point with the
+// automatic invariants only).
+func (e *Env) execGotoLoop(list []ast.Stmt, label string, st *State) []Outcome {
+	c := e.C
+	if !e.Top && !e.litOfTop() {
+		panic(outOfReach("goto loop inside inlined callee " + e.Name))
+	}
+	if e.inGotoLoop == nil {
+		e.inGotoLoop = map[string]bool{}
+	}
+	e.inGotoLoop[label] = true
+	defer delete(e.inGotoLoop, label)
+	body := &ast.BlockStmt{List: list}
+	entry := st.clone()
+	var lspec *LoopSpec
+	if c.Contract != nil {
+		lspec = c.Contract.LabelLoops[label]
+	}
+	invs := c.loopInvariants(e, lspec, -1)
+	for _, inv := range invs {
+		c.oblige(st, "inv-init", fmt.Sprintf("inv-init(label %s, %s)", label, inv.label), list[0].Pos(), inv.eval(e, st, entry), inv.text)
+	}
+	hs := st
+	for _, obj := range e.assignedInSt(hs, body) {
+		cur, ok := e.getVar(hs, obj)
+		if !ok {
+			continue
+		}
+		if _, isF := cur.(*FuncV); isF {
+			continue
+		}
+		nv, facts := c.freshValue(obj.Type(), "h_"+obj.Name())
+		e.setVar(hs, obj, nv)
+		for _, f := range facts {
+			hs.assume(f)
+		}
+	}
+	c.havocLoopHeap(e, hs, body, nil, nil, entry)
+	for _, inv := range invs {
+		hs.assume(inv.eval(e, hs, entry))
+	}
+	// strip the label from the first statement
+	first := list[0].(*ast.LabeledStmt).Stmt
+	stmts := append([]ast.Stmt{first}, list[1:]...)
+	var outs []Outcome
+	for _, o := range e.execBlock(stmts, hs) {
+		if o.Kind == oGoto && o.Label == label {
+			for _, inv := range invs {
+				c.oblige(o.St, "inv-pres", fmt.Sprintf("inv-pres(label %s, %s)", label, inv.label), list[0].Pos(), inv.eval(e, o.St, entry), inv.text)
+			}
+			continue
+		}
+		outs = append(outs, o)
+	}
+	return outs
+}
+
 // ---- loops ----
 
 func (c *FCtx) loopOrdinalOf(pos token.Pos) int {
@@ -1007,7 +1146,16 @@ func (c *FCtx) loopOrdinalOf(pos token.Pos) int {
 // assignedIn computes locals assigned in the body (declared outside it) on paths that can reach the back edge.
 // Assignments in a block that ends in return/panic and contains no continue cannot reach the loop head again.
 func (e *Env) assignedIn(body ast.Node, extra ...ast.Node) []types.Object {
+	return e.assignedIn2(nil, body, extra...)
+}
+
+func (e *Env) assignedInSt(st *State, body ast.Node, extra ...ast.Node) []types.Object {
+	return e.assignedIn2(st, body, extra...)
+}
+
+func (e *Env) assignedIn2(st *State, body ast.Node, extra ...ast.Node) []types.Object {
 	seen := map[types.Object]bool{}
+	visitedLits := map[*ast.FuncLit]bool{}
 	var out []types.Object
 	add := func(id *ast.Ident) {
 		obj := e.Info.Uses[id]
@@ -1090,6 +1238,20 @@ func (e *Env) assignedIn(body ast.Node, extra ...ast.Node) []types.Object {
 					add(id)
 				}
 			}
+		case *ast.CallExpr:
+			// a call of a local closure: its body may assign captured variables
+			if st != nil {
+				if id, ok := stripParens(x.Fun).(*ast.Ident); ok {
+					if obj := e.Info.Uses[id]; obj != nil {
+						if fv, ok := st.vars[obj].(*FuncV); ok {
+							if lit, ok := fv.Lit.(*ast.FuncLit); ok && !visitedLits[lit] {
+								visitedLits[lit] = true
+								ast.Inspect(lit.Body, visit)
+							}
+						}
+					}
+				}
+			}
 		}
 		return true
 	}
@@ -1125,10 +1287,10 @@ func (e *Env) loopCore(st *State, label string, pos token.Pos, body *ast.BlockSt
 	c := e.C
 	ordinal := c.loopOrd[pos]
 	var spec *LoopSpec
-	if e.Top && c.Contract != nil {
+	if (e.Top || e.litOfTop()) && c.Contract != nil {
 		spec = c.Contract.Loops[ordinal]
 	}
-	if !e.Top {
+	if !e.Top && !e.litOfTop() {
 		// loops in inlined callees are not supported (they need their own invariants)
 		panic(outOfReach(fmt.Sprintf("loop inside inlined callee %s", e.Name)))
 	}
@@ -1143,7 +1305,7 @@ func (e *Env) loopCore(st *State, label string, pos token.Pos, body *ast.BlockSt
 		c.oblige(st, "inv-init", fmt.Sprintf("inv-init(loop %d, %s)", ordinal, inv.label), pos, g, inv.text)
 	}
 	// 2. havoc
-	targets := e.assignedIn(body, extra...)
+	targets := e.assignedInSt(st, body, extra...)
 	hs := st
 	for _, obj := range targets {
 		cur, ok := e.getVar(hs, obj)
@@ -1560,7 +1722,8 @@ func (e *Env) execSelect(x *ast.SelectStmt, st *State, label string) []Outcome {
 		if cc.Comm != nil {
 			switch cm := cc.Comm.(type) {
 			case *ast.SendStmt:
-				e.eval(cm.Value, ts)
+				sv := e.eval(cm.Value, ts)
+				c.protoSendValue(e, ts, cm.Chan, sv)
 				c.protoChanOp(e, ts, cm.Chan, true, cm.Pos())
 			case *ast.ExprStmt:
 				if u, ok := stripParens(cm.X).(*ast.UnaryExpr); ok && u.Op == token.ARROW {
@@ -1642,20 +1805,38 @@ func (c *FCtx) mergeStates(sts []*State) *State {
 			}
 		}
 	}
-	m := &State{vars: map[types.Object]Value{}, heap: map[string]*Term{}, pc: anc, defers: sts[0].defers, trace: sts[0].trace, epoch: sts[0].epoch}
-	sameEpoch := true
+	m := &State{vars: map[types.Object]Value{}, heap: map[string]*Term{}, pc: anc, defers: sts[0].defers, trace: sts[0].trace}
+	// common prefix of the havoc logs
+	common := len(sts[0].hav)
 	for _, s := range sts[1:] {
-		if s.epoch != sts[0].epoch {
+		k := 0
+		for k < common && k < len(s.hav) && s.hav[k] == sts[0].hav[k] {
+			k++
+		}
+		common = k
+	}
+	sameEpoch := true
+	var extraPrefixes []string
+	for _, s := range sts {
+		if len(s.hav) != common {
 			sameEpoch = false
+			for _, h := range s.hav[common:] {
+				extraPrefixes = append(extraPrefixes, h.prefixes...)
+			}
 		}
 	}
-	dis := Or(conds...)
-	m.pc = m.pc.push(dis)
+	m.hav = append([]*havocRec(nil), sts[0].hav[:common]...)
+	var mergeRec *havocRec
+	if !sameEpoch {
+		mergeRec = &havocRec{name: c.freshName("hm"), prefixes: extraPrefixes}
+		m.hav = append(m.hav, mergeRec)
+	}
 	// name the branch conditions to keep terms small
 	named := make([]*Term, len(conds))
 	for i, cd := range conds {
 		named[i] = c.define("br", cd)
 	}
+	m.pc = m.pc.push(Or(named...))
 	// heap
 	keys := map[string]bool{}
 	for _, s := range sts {
@@ -1665,11 +1846,10 @@ func (c *FCtx) mergeStates(sts []*State) *State {
 	}
 	if !sameEpoch {
 		for k := range c.keySorts {
-			if !isGhostKey(k) {
+			if !isGhostKey(k) && mergeRec.covers(k) {
 				keys[k] = true
 			}
 		}
-		m.epoch = c.freshName("ep")
 	}
 	var ks []string
 	for k := range keys {
@@ -1865,7 +2045,7 @@ func (c *FCtx) havocAll(st *State, why string) {
 			delete(st.heap, k)
 		}
 	}
-	st.epoch = c.freshName("ep")
+	st.hav = append(st.hav, &havocRec{name: c.freshName("hv"), prefixes: []string{"*"}})
 	// allocation only grows
 	n := c.freshVar("$alloc", SInt)
 	st.heap["$alloc"] = n
